@@ -118,12 +118,16 @@ def loose_state(RF, img, g):
 
 
 def canon(state, mask):
-    """hashable form; FAT entries 0 and 1 (media byte, clean/dirty flags) are not part of the comparison"""
+    """hashable form; FAT entries 0 and 1 (media byte, clean/dirty flags) are not part of the comparison.  A sub-directory without
+    dot records and without entries (its zeroed cluster just became reachable: mkdir between the parent entry and '.') is not
+    distinguished from one that is not reachable yet: the model's ghost step MReg comes after the whole group is stored, the 8.3
+    record of a long-named directory can be decoded one store earlier (see store_steps)"""
     tbl, info, dirs = state
     t = list(tbl)
     t[0:2] = mask
     return (tuple(t), tuple(info) if info else None,
-            tuple((i, dirs[i][0] if i else 0, dirs[i][1] if i else 0, tuple(tuple(e) for e in dirs[i][2])) for i in sorted(dirs)))
+            tuple((i, dirs[i][0] if i else 0, dirs[i][1] if i else 0, tuple(tuple(e) for e in dirs[i][2])) for i in sorted(dirs)
+                  if i == 0 or dirs[i][0] or dirs[i][1] or dirs[i][2]))
 
 
 def uncanon(c):
@@ -299,7 +303,9 @@ def scripts(g):
         W('/new long name landing on dead slots.bin', 4), MK('/dir with a long name landing on them too'),
         UN('/new long name landing on dead slots.bin'), RM('/dir with a long name landing on them too'), T('/short'), MK('/sub'),
         W('/sub/first long name inside the sub directory', 1), UN('/sub/first long name inside the sub directory'),
-        R('/keep', '/sub/a renamed long name inside the sub directory'), T('/sub/s')]
+        R('/keep', '/sub/a renamed long name inside the sub directory'), T('/sub/s'),
+        W('/zz long trailing name.bin', 1), UN('/zz long trailing name.bin'), MK('/a long named directory on dead slots'),
+        T('/a long named directory on dead slots/inside')]
     for label, ops in FV.scripts(g):
         if label in ('rename-targets', 'directory-into-its-own-subtree', 'rmdir-cases', 'slots-and-growth', 'volume-full', 'root-full'):
             yield label, ops
